@@ -102,6 +102,15 @@ def k_merge(run, case):
             r.np_arrays["only_here"] = np.zeros(3)
         else:
             r.np_arrays.pop("error_array")
+    if rng.random() < .2 and len(keys_arrays) >= 2:
+        # one array object stored under two keys of a result (timestamps and seconds-from-start of
+        # a run that starts at t = 0, a placeholder shared by two entries): equal values, one buffer
+        r = results[int(rng.integers(n)) if rng.random() < .5 else 0]
+        ka = [k for k in keys_arrays if k != "M"]
+        if len(ka) >= 2 and ka[0] in r.np_arrays and ka[1] in r.np_arrays and \
+                r.np_arrays[ka[0]].shape == r.np_arrays[ka[1]].shape:
+            r.np_arrays[ka[1]] = r.np_arrays[ka[0]]
+            run.hit("results holding one array object under two keys")
     snaps = [snapshot_result(r) for r in results]
     with core.quiet():
         out = contracts.outcome_of(result_mod.merge_results, results)
